@@ -320,3 +320,5 @@ def run(chk, S: Session):
 
     rb = chk.rule("R-C13-B", "clause of this statement decided by rules of C08 (applying a backward conditional to a sample is the exact affine map)", floor=6)
     borrow(chk, S, rb, "C08", lambda r, c: (r in ("R-C08-1", "R-C08-4")) and "apply_flat" in c)
+    rb2 = chk.rule("R-C13-B2", "'requested sample shapes are prepended': a Normal with extra leading axes draws by mapping the same sampling method over one axis at a time (rule of C15)", floor=6)
+    borrow(chk, S, rb2, "C15", lambda r, c: r == "R-C15-4" and "sample" in c)
